@@ -1342,6 +1342,29 @@ class SymStr:
             return self
         return mkstr(["0"] * (n - len(self.chars)) + self.chars)
 
+    def ljust(self, n, fill=" "):
+        if n <= len(self.chars):
+            return self
+        return mkstr(self.chars + [fill] * (n - len(self.chars)))
+
+    def rjust(self, n, fill=" "):
+        if n <= len(self.chars):
+            return self
+        return mkstr([fill] * (n - len(self.chars)) + self.chars)
+
+    def lower(self):
+        out = []
+        for c in self.chars:
+            if isinstance(c, str):
+                out.append(c.lower())
+            elif isinstance(c, HexChar):
+                out.append(HexChar(c.nib, False))
+            elif isinstance(c, BitChar):
+                out.append(c)
+            else:
+                raise Unsupported("lower() of table char")
+        return mkstr(out)
+
     def replace(self, old, new):
         if len(old) != 1:
             raise Unsupported("SymStr.replace with multi-char pattern")
@@ -1587,6 +1610,11 @@ def s_chr(x):
 def s_format(x, spec=""):
     if isinstance(x, SymInt) and spec in ("X", "x"):
         return fmt_hex(x, 0, spec == "X", exact=True)
+    m = _re.fullmatch(r"0(\d+)([Xx])", spec) if isinstance(spec, str) else None
+    if isinstance(x, SymInt) and m:
+        return fmt_hex(x, builtins.int(m.group(1)), m.group(2) == "X")
+    if isinstance(x, (SymStr, OpaqueStr)) and spec == "":
+        return x
     if is_sym(x):
         raise Unsupported("format(%s, %r)" % (type(x).__name__, spec))
     return builtins.format(x, spec)
@@ -1626,7 +1654,20 @@ def fmt_hex(a, width, upper, exact=False):
             bits = bits[len(bits) - 4 * width:]
             n = width
         else:
-            raise Unsupported("hex rendering with value-dependent length")
+            # the number of digits depends on the value: fork on it (at most n ways)
+            if c is None:
+                raise Unsupported("hex rendering with value-dependent length")
+            bits = [ZERO1] * (4 * n - len(bits)) + bits
+            lo = builtins.max(width, 1)
+            for k in range(lo, n):
+                hi_zero = [b for b in bits[:4 * (n - k)]]
+                cond = z3.And([z3.Not(b.true()) for b in hi_zero if b.atoms or b.c] +
+                              ([z3.BoolVal(False)] if any((not b.atoms) and b.c for b in hi_zero) else []))
+                if bool(SymBool(cond)):
+                    bits = bits[4 * (n - k):]
+                    n = k
+                    break
+            width = builtins.max(width, n)
     if n > 1 and n > width:
         raise Unsupported("hex rendering with value-dependent length")
     w = builtins.max(width, n)
@@ -1665,6 +1706,34 @@ def symx_fmt(fmt, arg):
             return OpaqueStr(fmt)
     out += list(fmt[pos:])
     return mkstr(out)
+
+
+def symx_fstring(*parts):
+    """f-string: parts are str constants or (value, conversion, spec) triples"""
+    out = []
+    for p in parts:
+        if isinstance(p, str):
+            out.append(p)
+            continue
+        v, conv, spec = p
+        if is_sym(v) or isinstance(v, OpaqueStr):
+            if conv not in (-1, 115):
+                return OpaqueStr("f-string")
+            r = s_format(v, spec) if spec or not isinstance(v, (SymStr, OpaqueStr)) else v
+            if isinstance(r, SymInt):
+                r = s_str(r)
+            out.append(r)
+        else:
+            if conv == 114:
+                v = builtins.repr(v)
+            elif conv == 115:
+                v = builtins.str(v)
+            elif conv == 97:
+                v = builtins.ascii(v)
+            out.append(builtins.format(v, spec))
+    if any(isinstance(x, OpaqueStr) for x in out):
+        return OpaqueStr("f-string")
+    return symx_join("", out)
 
 
 def symx_join(sep, it):
